@@ -135,5 +135,6 @@ FindOKHolds ==
         ct == ContainingAll(m, pts) IN
     /\ FindWellFormed(m, pts, out.res, out.err)
     /\ FindOK(m, pts, out.res, out.err, ct)
+    /\ PointsOfTheDomainAreFound(m, pts, out.err, ct)
     /\ RaisesOutside(m, pts, out.err, ct)
 ==============================================================================
